@@ -201,3 +201,14 @@ Qed.
 Theorem set_value_effective p d1 d2 :
   cfg_get (pd_cfg p) d1 = cfg_get (pd_cfg p) d2 -> set_value p d1 = set_value p d2.
 Proof. intros E. unfold set_value. now rewrite E. Qed.
+
+(* ---------- K2a: where the order in which something was written does enter the text ---------- *)
+Lemma inst_kwargs_order_matters :
+  repr_inst (VInst (lit "Plain") [VInt 1] [(lit "k", VInt 1); (lit "a", VInt 2)]) <>
+  repr_inst (VInst (lit "Plain") [VInt 1] [(lit "a", VInt 2); (lit "k", VInt 1)]).
+Proof. vm_compute. discriminate. Qed.
+
+Lemma auto_mapping_argument_order_matters :
+  repr_inst (VAuto (lit "AutoA") [(lit "a", VDict [(lit "z", VInt 1); (lit "b", VStr (lit "q"))])]) <>
+  repr_inst (VAuto (lit "AutoA") [(lit "a", VDict [(lit "b", VStr (lit "q")); (lit "z", VInt 1)])]).
+Proof. vm_compute. discriminate. Qed.
